@@ -215,10 +215,12 @@ func (d *drive) finish(w *bufio.Writer, kind, id string, refCancel func(), refDo
 		s.cancelNow(d.l.changes, func() int { return -1 })
 	}
 	refCancel()
-	for _, s := range d.subs {
-		s.wait(2 * time.Second)
+	waitAll(d.subs, 1500*time.Millisecond)
+	if closeMissed.Load() {
+		waitCh(refDone, 20*time.Millisecond)
+	} else if !waitCh(refDone, 500*time.Millisecond) {
+		closeMissed.Store(true)
 	}
-	waitCh(refDone, 2*time.Second)
 	d.cancel()
 	evs := d.l.rec.Events()
 	fmt.Fprintf(w, "RUN\t%s\t%s\t%s\t%s\t%s\t%s\n", kind, id, strings.Join(evs, " "), joinSubs(d.subs, -1), d.rr.String(),
